@@ -348,7 +348,7 @@ pub(crate) fn change_pass(private_key: String, env_pass: bool) -> Result<(), any
         format!("PrivateKey = {}", new_sk.as_str())
     };
 
-    println!("{}", key_output);
+    print_stdout(&key_output)?;
 
     Ok(())
 }
@@ -365,7 +365,7 @@ pub(crate) fn extract_pub(private_key: String, env_pass: bool) -> Result<(), any
     let pk = sk.to_public()?;
     let epk = Keyring::encode_public_key(&pk);
 
-    println!("PublicKey = {}", epk.as_str());
+    print_stdout(&format!("PublicKey = {}", epk.as_str()))?;
 
     Ok(())
 }
@@ -497,6 +497,15 @@ fn open_output(path: Option<&str>, is_text: bool) -> Result<Box<dyn Write>, anyh
     } else {
         Ok(Box::new(std::io::stdout()))
     }
+}
+
+/// Print a line to stdout. A failed write (closed pipe, full disk) is
+/// returned as an error instead of the panic that println! would raise.
+pub(crate) fn print_stdout(line: &str) -> Result<(), anyhow::Error> {
+    let mut stdout = std::io::stdout();
+    writeln!(stdout, "{}", line)?;
+    stdout.flush()?;
+    Ok(())
 }
 
 fn confirm_password(prompt: &str, env_pass: bool) -> Result<ZeroedString, anyhow::Error> {
